@@ -1191,7 +1191,7 @@ def shared_source_shape(prog: Program) -> bool:
     decls = {s.name: s for s in prog.stmts if isinstance(s, Decl)}
 
     def strip(e):
-        while isinstance(e, Paren):
+        while isinstance(e, Paren) or (isinstance(e, Un) and e.op == "+"):  # +x is x's own wire
             e = e.e
         return e
 
